@@ -138,7 +138,7 @@ def world_defs():
     """trait / group definitions of the lifecycle world (groups, aliased generics, wrapped
     associated types of all six kinds)"""
     src = hist.PRELUDE
-    traits = re.findall(r"#\[cglue_trait\]\npub trait .*?\n}\n", src, re.S)
+    traits = re.findall(r"#\[cglue_trait\]\n(?:#\[cglue_forward\]\n)?pub trait .*?\n}\n", src, re.S)
     groups = re.findall(r"cglue_trait_group!\(.*?\);\n", src)
     return "".join(traits) + "".join(groups)
 
